@@ -216,4 +216,67 @@ mod tests {
         assert!(decode(b":00000001FE\n").is_err());
         assert!(decode(b"").is_err());
     }
+
+    fn rec(typ: u8, off: u16, data: &[u8]) -> String {
+        let mut b = vec![data.len() as u8, (off >> 8) as u8, off as u8, typ];
+        b.extend_from_slice(data);
+        let sum = b.iter().fold(0u8, |a, x| a.wrapping_add(*x));
+        b.push(0u8.wrapping_sub(sum));
+        format!(":{}", b.iter().map(|x| format!("{:02X}", x)).collect::<String>())
+    }
+
+    #[test]
+    fn addressing() {
+        // linear (04) and segment (02) bases, latest wins
+        let f = format!("{}\n{}\n{}\n{}\n{}\n", rec(4, 0, &[0x00, 0x01]), rec(0, 0x0010, &[0xAA]), rec(2, 0, &[0x20, 0x00]), rec(0, 0x0005, &[0xBB]), rec(1, 0, &[]));
+        let d = decode(f.as_bytes()).unwrap();
+        assert_eq!(d.bytes.get(0x10010), Some(0xAA));
+        assert_eq!(d.bytes.get(0x20005), Some(0xBB));
+        assert_eq!(d.bytes.len(), 2);
+        // segment mode wraps the offset within 64 KiB, linear mode carries on
+        let f = format!("{}\n{}\n{}\n", rec(2, 0, &[0x10, 0x00]), rec(0, 0xFFFF, &[1, 2]), rec(1, 0, &[]));
+        let d = decode(f.as_bytes()).unwrap();
+        assert_eq!(d.bytes.get(0x10000 + 0xFFFF), Some(1));
+        assert_eq!(d.bytes.get(0x10000), Some(2));
+        let f = format!("{}\n{}\n{}\n", rec(4, 0, &[0x00, 0x01]), rec(0, 0xFFFF, &[1, 2]), rec(1, 0, &[]));
+        let d = decode(f.as_bytes()).unwrap();
+        assert_eq!(d.bytes.get(0x1FFFF), Some(1));
+        assert_eq!(d.bytes.get(0x20000), Some(2));
+    }
+
+    #[test]
+    fn rejects() {
+        let eof = rec(1, 0, &[]);
+        // an address written twice
+        assert!(decode(format!("{}\n{}\n{}\n", rec(0, 0, &[1, 2]), rec(0, 1, &[3]), eof).as_bytes()).is_err());
+        // data after the end-of-file record, two end-of-file records, no end-of-file record
+        assert!(decode(format!("{}\n{}\n", eof, rec(0, 0, &[1])).as_bytes()).is_err());
+        assert!(decode(format!("{}\n{}\n", eof, eof).as_bytes()).is_err());
+        assert!(decode(format!("{}\n", rec(0, 0, &[1])).as_bytes()).is_err());
+        // torn record, bad length field, unknown type, junk
+        let r = rec(0, 0, &[1, 2, 3]);
+        assert!(decode(format!("{}\n{}\n", &r[..r.len() - 2], eof).as_bytes()).is_err());
+        assert!(decode(format!(":0300000001FC\n{}\n", eof).as_bytes()).is_err());
+        assert!(decode(format!("{}\n{}\n", rec(7, 0, &[1]), eof).as_bytes()).is_err());
+        assert!(decode(format!("STALE\n{}\n", eof).as_bytes()).is_err());
+        // accepted spellings: lower case, LF or CRLF, blank lines and stray CR after the end
+        assert!(decode(format!("{}\r\n{}\r\n\r\n\r", rec(0, 0, &[0xAB]).to_lowercase().replace(":", ":"), eof).as_bytes()).is_ok());
+        assert!(decode(format!("{}\n{}\n{}", rec(3, 0, &[0, 0, 0, 0]), rec(5, 0, &[0, 0, 0, 0]), eof).as_bytes()).is_ok());
+    }
+
+    #[test]
+    fn image_match() {
+        let img: Vec<u8> = (0..40u8).collect();
+        let f = format!("{}\n{}\n{}\n{}\n", rec(0, 0, &img[..16]), rec(0, 16, &img[16..32]), rec(0, 32, &img[32..]), rec(1, 0, &[]));
+        let d = decode(f.as_bytes()).unwrap();
+        assert!(matches_image(&d, &img).is_ok());
+        assert!(matches_image(&d, &img[..39]).is_err());
+        let mut more = img.clone();
+        more.push(9);
+        assert!(matches_image(&d, &more).is_err());
+        let mut diff = img.clone();
+        diff[17] ^= 1;
+        assert!(matches_image(&d, &diff).is_err());
+        assert!(matches_image(&decode(b":00000001FF\n").unwrap(), &[]).is_ok());
+    }
 }
